@@ -3607,12 +3607,11 @@ static sexp sexp_read_raw_depth (sexp ctx, sexp in, sexp *shares, int depth) {
       break;
     case 'i': case 'I':
       res = sexp_read_nested(ctx, in, depth+1);
-      if (sexp_exact_integerp(res))
-        res = sexp_make_flonum(ctx, sexp_unbox_fixnum(res));
-#if SEXP_USE_RATIOS
-      else if (sexp_ratiop(res))
-        res = sexp_make_flonum(ctx, sexp_ratio_to_double(ctx, res));
-#endif
+      if (sexp_numberp(res))
+        res = sexp_exact_to_inexact(ctx, NULL, 1, res);
+      else if (!sexp_exceptionp(res))
+        res = sexp_read_error(ctx, "#i not followed by a number",
+                              res == SEXP_EOF ? SEXP_NULL : res, in);
       break;
     case 'f': case 'F':
     case 't': case 'T':
